@@ -21,8 +21,10 @@ func TestDevErrors(t *testing.T) {
 	re := regexp.MustCompile(`[A-Z]\d+N\d+_|\d+`)
 	seq := 0
 	n := 0
-	devSites = 1
-	defer func() { devSites = 0 }()
+	if os.Getenv("C09_SITES") == "1" {
+		devSites = 1
+		defer func() { devSites = 0 }()
+	}
 	rec.Check(t, 500, func(rt *rapid.T) {
 		seq++
 		p := Generate(rt, fmt.Sprintf("S0N%d_", seq))
